@@ -502,6 +502,9 @@ func gcsSortedRule(p *Program, r *Report, rule string) int {
 		if cal == nil || len(c.Call.Args) == 0 {
 			return false
 		}
+		if org := cal.Origin(); org != nil {
+			cal = org // slices.Sort[[]uint64 uint64] is an instance without a package of its own
+		}
 		switch cal.String() {
 		case "sort.Slice", "sort.SliceStable", "sort.Sort", "sort.Stable", "slices.Sort", "slices.SortFunc", "slices.SortStableFunc":
 		default:
@@ -573,6 +576,42 @@ func gcsSortedRule(p *Program, r *Report, rule string) int {
 		return out
 	}
 	sortedAt = func(fn *ssa.Function, v ssa.Value, at *ssa.BasicBlock, depth int) (bool, string) {
+		// a window of a sorted slice is sorted (benign variant b-c13-v3: `pending = pending[1:]` in the merge loop): look
+		// through φ and slicing to the slices the value can stand for
+		switch v.(type) {
+		case *ssa.Phi, *ssa.Slice:
+			roots := map[ssa.Value]bool{}
+			seen := map[ssa.Value]bool{}
+			var walk func(x ssa.Value)
+			walk = func(x ssa.Value) {
+				if seen[x] {
+					return
+				}
+				seen[x] = true
+				switch y := x.(type) {
+				case *ssa.Phi:
+					for _, e := range y.Edges {
+						walk(e)
+					}
+				case *ssa.Slice:
+					walk(y.X)
+				default:
+					roots[x] = true
+				}
+			}
+			walk(v)
+			if len(roots) > 0 && depth < 3 {
+				how := ""
+				for rt := range roots {
+					ok, h := sortedAt(fn, rt, at, depth+1)
+					if !ok {
+						return false, h
+					}
+					how = h
+				}
+				return true, how + " (read through a window of it)"
+			}
+		}
 		for _, b := range fn.Blocks {
 			for _, in := range b.Instrs {
 				if c, ok := in.(*ssa.Call); ok && sortCallOn(c, v) && (b == at || b.Dominates(at)) {
@@ -700,7 +739,7 @@ func gcsBuildRefusals(p *Program, r *Report, rule string, fn *ssa.Function, pp *
 // nothing, and "any-of" is true exactly when one item matches.
 func c13verdicts(p *Program, r *Report) {
 	pkg := p.Pkg("gcs")
-	n := 0
+	n, nFn := 0, 0
 	for _, fn := range p.Funcs {
 		if fn.Pkg != pkg || fn.Parent() != nil || fn.Signature.Recv() == nil || len(fn.Blocks) == 0 {
 			continue
@@ -712,10 +751,11 @@ func c13verdicts(p *Program, r *Report) {
 		if b, ok := res.At(0).Type().Underlying().(*types.Basic); !ok || b.Kind() != types.Bool {
 			continue
 		}
+		nFn++
 		for _, ret := range returnsOf(fn) {
 			v, isK := constBool(ret.Results[0])
 			if !isK || !v || !isNilConst(ret.Results[1]) {
-				continue
+				continue // a computed verdict (`return current == target, nil`, a callee's answer) is not this clause's business
 			}
 			found := false
 			for _, c := range MustCondsAtBlock(fn, ret.Block()) {
@@ -748,7 +788,8 @@ func c13verdicts(p *Program, r *Report) {
 				"no equality of two computed values and no positive index lookup selects this return: an empty or exhausted filter / query would match")
 		}
 	}
-	if n < 3 {
-		r.Unresolved("C13.every", fmt.Sprintf("constant positive verdicts of the query functions (found %d, expected at least 3)", n))
+	_ = n
+	if nFn < 4 {
+		r.Unresolved("C13.every", fmt.Sprintf("query functions of gcs.Filter returning (bool, error) (found %d, expected the single-item query, the any-of query and its two strategies)", nFn))
 	}
 }
